@@ -32,7 +32,30 @@ func TestC03(t *testing.T) {
 	deep := GenCfg{Depth: 5, Env: true, DD: true, Exotic: true}
 	rapid.Check(t, func(rt *rapid.T) {
 		var c *TermCase
-		switch k := intn(rt, 10, "c03source"); {
+		switch k := intn(rt, 11, "c03source"); {
+		case k == 10: // a command with a great many options, some of the late ones env-backed, reached through OPTIONS
+			n := rapid.IntRange(50, 90).Draw(rt, "manyopts")
+			c = &TermCase{Spec: []byte(rapid.SampledFrom([]string{"[OPTIONS] X", "", "OPTIONS", "[OPTIONS] [X...]"}).Draw(rt, "manyspec")), Args: []string{"X"}, Source: "many-options"}
+			for i := 0; i < n; i++ {
+				c.Opts = append(c.Opts, OptDecl{Names: []string{"--o" + string(rune('a'+i/26)) + string(rune('a'+i%26))}, Bool: i%3 != 0})
+			}
+			var set []int
+			for i := 0; i < 3; i++ {
+				set = append(set, rapid.IntRange(0, n-1).Draw(rt, "envopt"))
+			}
+			c.EnvSets = [][]int{nil, set, {n - 1}, {n - 1, n - 2, 0}}
+			for i, m := 0, rapid.IntRange(0, 4).Draw(rt, "nargv"); i < m; i++ {
+				if chance(rt, 1, 2, "useopt") {
+					o := c.Opts[rapid.IntRange(0, n-1).Draw(rt, "which")]
+					if o.Bool {
+						c.Argv = append(c.Argv, o.Names[0])
+					} else {
+						c.Argv = append(c.Argv, o.Names[0]+"=v")
+					}
+				} else {
+					c.Argv = append(c.Argv, rapid.SampledFrom([]string{"x", "-", "--zzz", "y"}).Draw(rt, "tok"))
+				}
+			}
 		case k < 5: // grammar-derived, nesting turned up
 			p := GenProgram(rt, deep)
 			argv, _ := GenArgv(rt, p.D, p.AST, deep)
